@@ -48,18 +48,21 @@ type staticUpstream struct {
 	from              string
 	upstreamHeaders   http.Header
 	downstreamHeaders http.Header
-	stop              chan struct{}  // Signals running goroutines to stop.
-	wg                sync.WaitGroup // Used to wait for running goroutines to stop.
-	Hosts             HostPool
-	Policy            Policy
-	KeepAlive         int
-	FallbackDelay     time.Duration
-	Timeout           time.Duration
-	FailTimeout       time.Duration
-	TryDuration       time.Duration
-	TryInterval       time.Duration
-	MaxConns          int64
-	HealthCheck       struct {
+	// the rule fields ("X", "+X", "-X") in the order they were written
+	upstreamHeaderOrder   []string
+	downstreamHeaderOrder []string
+	stop                  chan struct{}  // Signals running goroutines to stop.
+	wg                    sync.WaitGroup // Used to wait for running goroutines to stop.
+	Hosts                 HostPool
+	Policy                Policy
+	KeepAlive             int
+	FallbackDelay         time.Duration
+	Timeout               time.Duration
+	FailTimeout           time.Duration
+	TryDuration           time.Duration
+	TryInterval           time.Duration
+	MaxConns              int64
+	HealthCheck           struct {
 		Client        http.Client
 		Path          string
 		Interval      time.Duration
@@ -216,6 +219,22 @@ func NewStaticUpstreams(c casketfile.Dispenser, host string) ([]Upstream, error)
 	return upstreams, nil
 }
 
+// addUpstreamHeaderRule records a header_upstream rule; rules take
+// effect in the order they are written in.
+func (u *staticUpstream) addUpstreamHeaderRule(field, value string) {
+	u.upstreamHeaderOrder = appendRuleField(u.upstreamHeaderOrder, u.upstreamHeaders, field)
+	u.upstreamHeaders.Add(field, value)
+}
+
+// appendRuleField appends field to order unless rules already has it
+// (http.Header.Add canonicalizes the field, so the lookup does too).
+func appendRuleField(order []string, rules http.Header, field string) []string {
+	if _, ok := rules[textproto.CanonicalMIMEHeaderKey(field)]; ok {
+		return order
+	}
+	return append(order, textproto.CanonicalMIMEHeaderKey(field))
+}
+
 func (u *staticUpstream) From() string {
 	return u.from
 }
@@ -229,13 +248,15 @@ func (u *staticUpstream) NewHost(host string) (*UpstreamHost, error) {
 		host = "http://" + host
 	}
 	uh := &UpstreamHost{
-		Name:              host,
-		Conns:             0,
-		Fails:             0,
-		FailTimeout:       u.FailTimeout,
-		Unhealthy:         0,
-		UpstreamHeaders:   u.upstreamHeaders,
-		DownstreamHeaders: u.downstreamHeaders,
+		Name:                  host,
+		Conns:                 0,
+		Fails:                 0,
+		FailTimeout:           u.FailTimeout,
+		Unhealthy:             0,
+		UpstreamHeaders:       u.upstreamHeaders,
+		DownstreamHeaders:     u.downstreamHeaders,
+		UpstreamHeaderOrder:   u.upstreamHeaderOrder,
+		DownstreamHeaderOrder: u.downstreamHeaderOrder,
 		CheckDown: func(u *staticUpstream) UpstreamHostDownFunc {
 			return func(uh *UpstreamHost) bool {
 				if atomic.LoadInt32(&uh.Unhealthy) != 0 {
@@ -492,21 +513,22 @@ func parseBlock(c *casketfile.Dispenser, u *staticUpstream, hasSrv bool) error {
 				}
 			}
 			if isUpstream {
-				u.upstreamHeaders.Add(header, value)
+				u.addUpstreamHeaderRule(header, value)
 			} else {
+				u.downstreamHeaderOrder = appendRuleField(u.downstreamHeaderOrder, u.downstreamHeaders, header)
 				u.downstreamHeaders.Add(header, value)
 			}
 		}
 	case "transparent", "trans":
 		// Note: X-Forwarded-For header is always being appended for proxy connections
 		// See implementation of createUpstreamRequest in proxy.go
-		u.upstreamHeaders.Add("Host", "{host}")
-		u.upstreamHeaders.Add("X-Real-IP", "{remote}")
-		u.upstreamHeaders.Add("X-Forwarded-Proto", "{scheme}")
-		u.upstreamHeaders.Add("X-Forwarded-Port", "{server_port}")
+		u.addUpstreamHeaderRule("Host", "{host}")
+		u.addUpstreamHeaderRule("X-Real-IP", "{remote}")
+		u.addUpstreamHeaderRule("X-Forwarded-Proto", "{scheme}")
+		u.addUpstreamHeaderRule("X-Forwarded-Port", "{server_port}")
 	case "websocket":
-		u.upstreamHeaders.Add("Connection", "{>Connection}")
-		u.upstreamHeaders.Add("Upgrade", "{>Upgrade}")
+		u.addUpstreamHeaderRule("Connection", "{>Connection}")
+		u.addUpstreamHeaderRule("Upgrade", "{>Upgrade}")
 	case "without":
 		if !c.NextArg() {
 			return c.ArgErr()
